@@ -138,11 +138,11 @@ def rule_R2_one_access(ctx, f, rid="R2", methods=("set", "get", "inc_by", "dec_b
                        site=site(b, blocks[0]))
                 c = ev[0][0]
                 if m in ("set", "inc_by", "dec_by") and ok and not negated_add:
-                    val = peel(c.args[1], transparent=["f64_to_u64"])
+                    val = peel(c.args[1], transparent=["f64_to_u64", "f64::to_bits"])
                     ctx.ob(rid, key + "|operand", val == ("param", 2),
                            "the operand of the %s in %s must be the caller's value unchanged (found %s)" % (kinds[0], key, show(c.args[1])), site=c.span)
                 if m == "get" and ok:
-                    r = peel(b.term_local(0), transparent=["u64_to_f64"])
+                    r = peel(b.term_local(0), transparent=["u64_to_f64", "f64::from_bits"])
                     ctx.ob(rid, key + "|result", r == c.result_term(),
                            "%s must return the loaded value (found %s)" % (key, show(b.term_local(0))), site=c.span)
             elif deleg and not ev:
@@ -192,7 +192,7 @@ def rule_R2_one_access(ctx, f, rid="R2", methods=("set", "get", "inc_by", "dec_b
         if ok:
             c = ev[0][0]
             for i in range(1, nargs):
-                a = peel(c.args[i], transparent=["f64_to_u64"])
+                a = peel(c.args[i], transparent=["f64_to_u64", "f64::to_bits"])
                 fw = fw and a == ("param", i + 1)
         ctx.ob(rid, "%s::%s|one-primitive" % (cell, m), ok and fw,
                "%s::%s must be exactly one %s on self.inner with its arguments (value and orderings) forwarded in position (found %s)" % (
@@ -219,8 +219,8 @@ def rule_R3_cas_loop(ctx, f, cas_loops, rid="R3"):
         cas = [c for c, p in ev if p.startswith("compare_exchange")]
         loads = [c for c, p in ev if p == "load"]
         others = [p for c, p in ev if p not in ("load", "compare_exchange", "compare_exchange_weak")]
-        ctx.ob(rid, key + "|shape", len(cas) == 1 and not others and m == "inc_by",
-               "%s: a CAS loop is expected only in inc_by, with one CAS site and loads only (found cas=%d, others=%s)" % (key, len(cas), others),
+        ctx.ob(rid, key + "|shape", len(cas) == 1 and not others and m in ("inc_by", "dec_by"),
+               "%s: a CAS loop is expected only in inc_by / dec_by, with one CAS site and loads only (found cas=%d, others=%s)" % (key, len(cas), others),
                site=b.raw["span"]["at"])
         if len(cas) != 1:
             continue
@@ -248,13 +248,25 @@ def rule_R3_cas_loop(ctx, f, cas_loops, rid="R3"):
         # (b) new = f64_to_u64(u64_to_f64(expected) + delta)
         n = peel(new, transparent=["f64_to_u64", "f64::to_bits"], refs=False)
         okb = False
+        def is_delta(y, negated):
+            y = peel(y, refs=False)
+            if not negated:
+                return y == ("param", 2)
+            return (isinstance(y, tuple) and y[0] == "unop" and y[1] == "Neg" and peel(y[2], refs=False) == ("param", 2)) \
+                or (is_call(y, "Neg::neg") and peel(y[2][0], refs=False) == ("param", 2))
+
+        def is_exp(x):
+            return peel(x, transparent=["u64_to_f64", "f64::from_bits"], refs=False) == expected
         if isinstance(n, tuple) and n[0] == "binop" and n[1] == "Add":
             a1, a2 = n[2], n[3]
             for x, y in ((a1, a2), (a2, a1)):
-                if peel(x, transparent=["u64_to_f64", "f64::from_bits"], refs=False) == expected and y == ("param", 2):
+                if is_exp(x) and is_delta(y, m == "dec_by"):
                     okb = True
+        if isinstance(n, tuple) and n[0] == "binop" and n[1] == "Sub" and m == "dec_by":
+            # float(expected) - delta, in this order only
+            okb = is_exp(n[2]) and is_delta(n[3], False)
         ctx.ob(rid, key + "|new-from-expected", okb,
-               "new must be bits(float(expected) + delta) with the SAME expected value that is passed to the CAS; found new=%s expected=%s" % (show(new), show(expected)),
+               "new must be bits(float(expected) + delta) (dec_by: + (-delta) or - delta) with the SAME expected value that is passed to the CAS; found new=%s expected=%s" % (show(new), show(expected)),
                site=c.span)
         # (c) return only through the success edge / (d) failure edge goes back to a fresh read
         res_t = c.result_term()
@@ -342,7 +354,7 @@ def check_wrapper(ctx, rid, f, path, callee_pat, recv, args, key=None, extra_pur
         # what counts is the cell operation the chain of thin wrappers ends in, not how the chain is cut into functions:
         # the Value<P> layer is expanded in place and the body is compared with the terminal operation of the expected callee
         from pvrules import inline
-        b = inline.expand_body(f, b, lambda pth: bool(re.match(r"^prometheus::value::Value::(inc_by|dec_by|set|get|inc|dec)$", strip_generics(pth))))
+        b = inline.expand_body(f, b, lambda pth: bool(re.match(r"^prometheus::(value::Value::(inc_by|dec_by|set|get|inc|dec)|gauge::GenericGauge::(add|sub|set|get))$", strip_generics(pth))))
         tpat, targs = TERMINAL_OF[callee_pat]
         callee_pat = tpat
         args = [a for a in args] if targs is None else targs
@@ -420,6 +432,8 @@ def rule_value_wrappers(ctx, f, rid, which):
     }
     for m in which:
         pat, recv, args, ret = table[m]
+        if f.body(V_ + m) is None and m in ("inc", "dec", "dec_by", "inc_by"):
+            continue        # a forwarding method that no longer exists: its former callers are checked in terminal form
         check_wrapper(ctx, rid, f, V_ + m, pat, recv, args, key="Value::" + m, ret_is_call=ret)
 
 
@@ -439,14 +453,15 @@ def rule_number_impls(ctx, f, rid):
             ctx.ob(rid, "Number<%s>::%s" % (ty, m), r == P1 and not b.calls(),
                    "<%s as Number>::%s must be the identity or an `as` cast of its argument (found %s)" % (ty, m, show(b.term_local(0))), site=b.raw["span"]["at"])
     for m, inner in (("u64_to_f64", "f64::from_bits"), ("f64_to_u64", "f64::to_bits")):
-        b = ctx.anchor(rid, m, f.body(A64 + m))
+        b = f.body(A64 + m)        # thin aliases of the std bit casts: when they are gone the std calls are used directly (transparent to the rules)
         if b:
+            ctx.anchor(rid, m, b)
             ctx.saw(b)
             n += 1
             r = b.term_local(0)
             ctx.ob(rid, m, is_call(r, inner) and r[2] == (P1,) and len(b.calls()) == 1,
                    "%s must be exactly %s(arg) (found %s)" % (m, inner, show(r)), site=b.raw["span"]["at"])
-    ctx.floor(rid, "Number/bit-cast helper bodies", n, 8)
+    ctx.floor(rid, "Number/bit-cast helper bodies", n, 6)
 
 
 def rule_value_metric(ctx, f, rid):
